@@ -435,121 +435,155 @@ def _touch_paths(b):
     return []
 
 
+class Session:
+    """A target and the reference tree driven in lock step; `feed` may be called repeatedly."""
+
+    def __init__(self, make_target, placement="generated", check_every=True, crosscheck=True,
+                 sig_prefix="C01", extra_check=None, on_boundary=None):
+        self.tree = Tree()
+        self.committed_tree = None
+        self.target = make_target()
+        self.out = Outcome()
+        self.placement = placement
+        self.check_every = check_every
+        self.crosscheck = crosscheck
+        self.sig = sig_prefix
+        self.extra_check = extra_check
+        self.on_boundary = on_boundary  # callback(session, kind) after every commit/reopen/discard
+        self.created_in = {}  # abs path -> container index where the node (re)appeared
+        self.replaced_in = {}  # abs path -> container index k>=1 where it replaced an older incarnation
+        self.ever = set()  # paths that existed at some point
+        self.attr_set_in = {}
+        self.pos = 0
+
+    def cidx(self):
+        return self.target.n_containers() - 1
+
+    def verify(self, where):
+        try:
+            got = dump_real(self.target.root, crosscheck=self.crosscheck)
+        except DumpMismatch as e:
+            raise Violation(f"{self.sig}:listing-inconsistent", str(e), "keys/len/in/[]/get/visit agree",
+                            extra=dict(where=where))
+        except Exception as e:  # noqa: BLE001
+            raise Violation(f"{self.sig}:read-raises", f"{type(e).__name__}: {e}", "tree is readable",
+                            extra=dict(where=where))
+        exp = self.tree.dump()
+        if got != exp:
+            d = diff_dumps(got, exp)
+            kinds = sorted({m.split()[0] for m in d})
+            raise Violation(f"{self.sig}:view-differs:" + "+".join(kinds), d, "view == reference tree",
+                            extra=dict(where=where))
+
+    def boundary(self, op):
+        kind, target, out = op[0], self.target, self.out
+        if self.placement == "none" or target.kind == "h5" and kind == "discard":
+            return
+        if kind == "commit":
+            target.commit(**(op[1] if len(op) > 1 and isinstance(op[1], dict) else {}))
+            self.committed_tree = self.tree.clone()
+            out.classes.add("boundary")
+        elif kind == "reopen":
+            mode, commit = op[1], (op[2] if len(op) > 2 else True)
+            target.reopen(mode, commit)
+            if commit:
+                self.committed_tree = self.tree.clone()
+            out.classes.add("reopen" if commit else "reopen_uncommitted")
+        elif kind == "discard":
+            if not target.can_discard():
+                return
+            target.discard()
+            self.tree = self.committed_tree.clone()
+            out.classes.add("discard")
+            self.created_in = {p: c for p, c in self.created_in.items() if self.tree.lookup(p) is not None}
+        if self.on_boundary:
+            self.on_boundary(self, kind)
+        self.verify(f"after {kind} at {self.pos}")
+
+    def data_op(self, op):
+        out, target = self.out, self.target
+        i = self.pos
+        for b in bind(op, self.tree):
+            if not bound_is_generated(b):
+                out.classes.add("skipped_outside_domain")
+                continue
+            before = self.tree.clone()
+            try:
+                apply_model(self.tree, b)
+                ok_model = True
+            except OpFails:
+                ok_model = False
+            nnodes = len(before.paths()) + 5
+            err = None
+            try:
+                with work_limit(3 * nnodes + 20):
+                    apply_real(target.root, b)
+                ok_real = True
+            except Diverges:
+                raise Violation(f"{self.sig}:diverges:{b['op']}" + (":into-self" if b.get("into_self") else ""),
+                                "operation does not terminate (work guard: > 3x node count creations)",
+                                "terminates", extra=dict(at=i, bound=b))
+            except Exception as e:  # noqa: BLE001
+                ok_real = False
+                err = f"{type(e).__name__}: {e}"
+            out.n_ops += 1
+            out.bound.append(b)
+            k = self.cidx()
+            if ok_real != ok_model:
+                what = "fails" if ok_model else "succeeds"
+                raise Violation(f"{self.sig}:op-{what}:{b['op']}" + (f":{b['macro']}" if b.get("macro") else ""),
+                                f"op {b} {'raised ' + str(err) if err else 'succeeded'} (container {k})",
+                                "succeeds" if ok_model else "fails", extra=dict(at=i, bound=b))
+            if not ok_model:
+                out.n_failed_expected += 1
+                out.classes.add("expected_failure")
+            else:
+                _classify(out, b, before, self.tree, k, self.created_in, self.replaced_in, self.ever,
+                          self.attr_set_in)
+            if self.check_every:
+                self.verify(f"after op {i} {b}")
+            if self.extra_check:
+                self.extra_check(self, i, b)
+            if self.placement == "every":
+                self.boundary(["commit"])
+
+    def feed(self, history):
+        for op in history:
+            if op[0] in ("commit", "reopen", "discard"):
+                self.boundary(op)
+            else:
+                self.data_op(op)
+            self.pos += 1
+        return self
+
+    def finish(self):
+        out = self.out
+        if not self.check_every:
+            self.verify("end")
+        out.n_containers = self.target.n_containers()
+        if out.n_containers >= 3:
+            out.classes.add("containers_ge3")
+        out.final_tree = self.tree
+        out.target = self.target
+        return out
+
+    def destroy(self):
+        self.target.destroy()
+
+
 def run_history(history, make_target, placement="generated", check_every=True, crosscheck=True,
                 sig_prefix="C01", extra_check=None):
     """Run `history` against a fresh target and the reference tree in lock step.
 
     placement: "none" (boundary ops skipped), "generated" (as given), "every" (commit after each data op).
-    Raises Violation on the first divergence. Returns an Outcome.
+    Raises Violation on the first divergence. Returns an Outcome (caller destroys out.target).
     """
-    tree = Tree()
-    committed_tree = None
-    target = make_target()
-    out = Outcome()
-    created_in = {}  # abs path -> container index where the node (re)appeared
-    replaced_in = {}  # abs path -> container index k>=1 where it replaced an older incarnation
-    ever = set()  # paths that existed at some point
-    attr_set_in = {}
+    s = Session(make_target, placement, check_every, crosscheck, sig_prefix, extra_check)
     try:
-        def cidx():
-            return target.n_containers() - 1
-
-        def verify(where):
-            try:
-                got = dump_real(target.root, crosscheck=crosscheck)
-            except DumpMismatch as e:
-                raise Violation(f"{sig_prefix}:listing-inconsistent", str(e), "keys/len/in/[]/get/visit agree",
-                                extra=dict(where=where))
-            except Exception as e:  # noqa: BLE001
-                raise Violation(f"{sig_prefix}:read-raises", f"{type(e).__name__}: {e}", "tree is readable",
-                                extra=dict(where=where))
-            exp = tree.dump()
-            if got != exp:
-                d = diff_dumps(got, exp)
-                kinds = sorted({m.split()[0] for m in d})
-                raise Violation(f"{sig_prefix}:view-differs:" + "+".join(kinds), d, "view == reference tree",
-                                extra=dict(where=where))
-
-        for i, op in enumerate(history):
-            kind = op[0]
-            if kind in ("commit", "reopen", "discard"):
-                if placement == "none" or target.kind == "h5" and kind == "discard":
-                    continue
-                if kind == "commit":
-                    target.commit()
-                    committed_tree = tree.clone()
-                    out.classes.add("boundary")
-                elif kind == "reopen":
-                    mode, commit = op[1], (op[2] if len(op) > 2 else True)
-                    target.reopen(mode, commit)
-                    if commit:
-                        committed_tree = tree.clone()
-                    out.classes.add("reopen" if commit else "reopen_uncommitted")
-                elif kind == "discard":
-                    if not target.can_discard():
-                        continue
-                    target.discard()
-                    tree = committed_tree.clone()
-                    out.classes.add("discard")
-                    created_in = {p: c for p, c in created_in.items() if tree.lookup(p) is not None}
-                verify(f"after {kind} at {i}")
-                continue
-            for b in bind(op, tree):
-                if not bound_is_generated(b):
-                    out.classes.add("skipped_outside_domain")
-                    continue
-                before = tree.clone()
-                try:
-                    apply_model(tree, b)
-                    ok_model = True
-                except OpFails:
-                    ok_model = False
-                nnodes = len(before.paths()) + 5
-                err = None
-                try:
-                    with work_limit(3 * nnodes + 20):
-                        apply_real(target.root, b)
-                    ok_real = True
-                except Diverges:
-                    raise Violation(f"{sig_prefix}:diverges:{b['op']}" + (":into-self" if b.get("into_self") else ""),
-                                    "operation does not terminate (work guard: > 50x node count creations)",
-                                    "terminates", extra=dict(at=i, bound=b))
-                except Exception as e:  # noqa: BLE001
-                    ok_real = False
-                    err = f"{type(e).__name__}: {e}"
-                out.n_ops += 1
-                out.bound.append(b)
-                k = cidx()
-                if ok_real != ok_model:
-                    what = "fails" if ok_model else "succeeds"
-                    raise Violation(f"{sig_prefix}:op-{what}:{b['op']}" + (f":{b['macro']}" if b.get("macro") else ""),
-                                    f"op {b} {'raised ' + str(err) if err else 'succeeded'} (container {k})",
-                                    "succeeds" if ok_model else "fails", extra=dict(at=i, bound=b))
-                if not ok_model:
-                    out.n_failed_expected += 1
-                    out.classes.add("expected_failure")
-                else:
-                    _classify(out, b, before, tree, k, created_in, replaced_in, ever, attr_set_in)
-                if check_every:
-                    verify(f"after op {i} {b}")
-                if extra_check:
-                    extra_check(target, tree, i, b)
-                if placement == "every":
-                    target.commit()
-                    committed_tree = tree.clone()
-        if not check_every:
-            verify("end")
-        out.n_containers = target.n_containers()
-        if out.n_containers >= 3:
-            out.classes.add("containers_ge3")
-        out.final_tree = tree
-        out.target = target
-        return out
-    except Violation:
-        target.destroy()
-        raise
+        s.feed(history)
+        return s.finish()
     except BaseException:
-        target.destroy()
+        s.destroy()
         raise
 
 
